@@ -72,7 +72,13 @@ type World struct {
 	// Quiet disables journalling (used where the environment is shared
 	// between tasks and must not carry harness state).
 	Quiet bool
+	// seq counts the calls of the stateful (non-pure) functions only: their
+	// results depend on it, so moving calls of PURE functions to compile time
+	// (ConstExpr) does not disturb them.
+	seq int
 }
+
+var pureFns = map[string]bool{"CI": true, "CS": true, "CB": true, "C64": true, "OpA": true, "OpB": true}
 
 func NewWorld(stateful bool, faults []CallFault, poison []PoisonFault) *World {
 	return &World{Stateful: stateful, Phase: "run", faults: faults, poison: poison}
@@ -98,12 +104,16 @@ func (w *World) enter(name string, args ...interface{}) (idx int, ret string) {
 	if w.Quiet {
 		return 0, ""
 	}
-	idx = len(w.Journal)
+	pos := len(w.Journal)
+	idx = w.seq
+	if !pureFns[name] {
+		w.seq++
+	}
 	ra := renderArgs(args)
 	w.Journal = append(w.Journal, CallRec{Phase: w.Phase, Name: name, Args: ra})
 	kind := ""
 	for _, f := range w.faults {
-		if f.Idx == idx {
+		if f.Idx == pos {
 			kind = f.Kind
 		}
 	}
@@ -133,7 +143,7 @@ func (w *World) enter(name string, args ...interface{}) (idx int, ret string) {
 		_ = p.V // real nil-pointer dereference inside the callee
 	case FRuntimeIdx:
 		var xs []int
-		_ = xs[idx+1] // real index-out-of-range inside the callee
+		_ = xs[pos+1] // real index-out-of-range inside the callee
 	case FPanicNil:
 		panic(nil)
 	default:
